@@ -205,6 +205,17 @@ end subroutine Misc
 })
 
 VALID.update({
+    # a program unit whose opening statement carries a name but opens no scoping region
+    "blockdata": """block data Init_C
+  integer :: k
+  real :: v(3)
+  common /Blk/ k, v
+  data k /3/
+end block data Init_C
+""",
+})
+
+VALID.update({
     # a module, an external subroutine and a main program without PROGRAM statement in one file
     "anon": """module Consts
   real :: Pi = 3.14
@@ -269,6 +280,18 @@ contains
     end function Inner
   end subroutine Outer_Proc
 end submodule Deep
+""",
+    "blockdo": """subroutine Scale(a, n)
+  integer :: n, i
+  real :: a(n)
+  do 10 i = 1, n
+    block
+      real :: t
+      t = a(i)
+      a(i) = 2 * t
+    end block
+10 a(i) = a(i) + 1
+end subroutine Scale
 """,
     "submodule": """submodule (Parent) Child
 contains
